@@ -73,10 +73,17 @@ Definition maps_ok (P : prog) (en : env) (v : value) (m : tmap * tmap) : Prop :=
   (truthy v = true -> exists m1, fst m = Some m1 /\ map_ok P en m1) /\
   (truthy v = false -> exists m2, snd m = Some m2 /\ map_ok P en m2).
 
+(* an exception outcome is acceptable: not a type failure; a propagating user exception is an exception object *)
+Definition exn_ok (P : prog) (e : exn) : Prop :=
+  match e with
+  | UserExn w => mem P w (TInst exc_id)
+  | _ => type_failure e = false
+  end.
+
 Definition expr_result_ok (P : prog) (en : env) (t : ty) (m : tmap * tmap) (o : out value) : Prop :=
   match o with
   | Val v => mem P v t /\ maps_ok P en v m
-  | Exn e => type_failure e = false
+  | Exn e => exn_ok P e
   | NoFuel => True
   end.
 
@@ -99,7 +106,7 @@ Definition bodies_ok (P : prog) : Prop :=
 Definition prog_ok (P : prog) : Prop := class_table_ok P /\ methods_compat P /\ bodies_ok P.
 
 Definition call_ok (P : prog) (ret : ty) (o : out value) : Prop :=
-  match o with Val v => mem P v ret | Exn e => type_failure e = false | NoFuel => True end.
+  match o with Val v => mem P v ret | Exn e => exn_ok P e | NoFuel => True end.
 
 (* running an accepted body from an environment that satisfies its parameter types *)
 Definition body_ok_at (P : prog) (f : nat) : Prop :=
@@ -110,14 +117,24 @@ Definition expr_ok_at (P : prog) (f : nat) : Prop :=
   forall e d fr t m en, infer P true d fr e = Ok (t, m) ->
     env_decl_ok P en d -> env_frame_ok P en fr -> expr_result_ok P en t m (eval P f en e).
 
-Definition stmt_result_ok (P : prog) (ret : ty) (st' : cst) (o : out sres) : Prop :=
+(* the environment at an abrupt exit (or a normal one) is the entry environment or satisfies one of the
+   binder's assignment snapshots: what mypy's try frames rely on *)
+Definition covered (P : prog) (en en' : env) (J : jumps) : Prop :=
+  en' = en \/ exists f, In f (exc J) /\ env_frame_ok P en' f.
+
+Definition stmt_result_ok (P : prog) (ret : ty) (en : env) (st' : cst) (J : jumps) (o : out sres) : Prop :=
   match o with
-  | Val (Normal en') => env_ok P en' st'
-  | Val (Returned v) => mem P v ret
-  | Exn e => type_failure e = false
+  | Val (Normal en') => env_ok P en' st' /\ covered P en en' J
+  | Val (Returned en' v) => mem P v ret /\ env_decl_ok P en' (decl st') /\ covered P en en' J
+  | Val (Broke en') => env_decl_ok P en' (decl st') /\ covered P en en' J /\
+                       exists f, In f (brk J) /\ env_frame_ok P en' f
+  | Val (Continued en') => env_decl_ok P en' (decl st') /\ covered P en en' J /\
+                           exists f, In f (cnt J) /\ env_frame_ok P en' f
+  | Val (Raised en' w) => mem P w (TInst exc_id) /\ env_decl_ok P en' (decl st') /\ covered P en en' J
+  | Exn e => exn_ok P e
   | NoFuel => True
   end.
 
 Definition stmt_ok_at (P : prog) (f : nat) : Prop :=
-  forall s ret st st' en, check_stmt P true ret st s = Ok st' -> env_ok P en st ->
-    stmt_result_ok P ret st' (exec P f en s).
+  forall s ret st st' J en, check_stmt P true ret st s = Ok (st', J) -> env_ok P en st ->
+    stmt_result_ok P ret en st' J (exec P f en s).
